@@ -26,6 +26,7 @@ extern struct isal_zstream *w_stream; /* entry snapshots (assigned in E_isal_def
 extern uint8_t *w_in0;
 extern uint32_t w_avail0, w_total0;
 extern uint32_t w_copies, w_passes;
+extern uint32_t w_last_kind; /* 0: no pass yet in this call, 1: last pass ran on the internal buffer, 2: on the user chunk */
 /* ghost state of the stream: number of bytes (<= 32K) directly in front of the current position that the match
  * finder may still dereference (its hash table refers to them): 0 after a history reset, dict_len after
  * isal_deflate_set_dict, grows by the bytes each pass consumes */
@@ -66,12 +67,14 @@ extern uint32_t g_hist;
                           stream->avail_out, stream->total_out, DM_ST.has_hist, DM_ST.state,       \
                           DM_ST.block_next, DM_ST.block_end, DM_ST.has_eob, DM_ST.has_eob_hdr,     \
                           DM_ST.count, DM_ST.crc, DM_ST.tmp_out_start, DM_ST.tmp_out_end,          \
-                          DM_ST.has_level_buf_init, w_passes)                                      \
+                          DM_ST.has_level_buf_init, w_passes, w_last_kind)                         \
         __CPROVER_ensures(w_passes == __CPROVER_old(w_passes) + 1)                                 \
+        __CPROVER_ensures(w_last_kind == (__CPROVER_same_object(start_in, w_stream) ? 1u : 2u))    \
         /* consumes k <= avail_in bytes */                                                         \
-        __CPROVER_ensures(__CPROVER_same_object(stream->next_in, __CPROVER_old(stream->next_in)) && \
-                          DM_OFF(stream->next_in) >= DM_OFF(__CPROVER_old(stream->next_in)) &&     \
-                          DM_OFF(stream->next_in) - DM_OFF(__CPROVER_old(stream->next_in)) <= __CPROVER_old(stream->avail_in)) \
+        /* NOTE: must be pointer_in_range_dfcc -- dfcc havocs a pointer-typed assigns target with an invalid pointer and \
+         * same_object()/== on it can never be assumed true afterwards (the path would silently be cut: audit item O4) */ \
+        __CPROVER_ensures(__CPROVER_pointer_in_range_dfcc(__CPROVER_old(stream->next_in), stream->next_in, \
+                                                          __CPROVER_old(stream->next_in) + __CPROVER_old(stream->avail_in))) \
         __CPROVER_ensures(stream->avail_in == __CPROVER_old(stream->avail_in) -                    \
                                   (uint32_t) (DM_OFF(stream->next_in) - DM_OFF(__CPROVER_old(stream->next_in)))) \
         __CPROVER_ensures(stream->total_in == __CPROVER_old(stream->total_in) +                    \
@@ -149,10 +152,10 @@ extern uint32_t g_hist;
         /* avail_in + buffered bytes is computed in 32 bits by the driver (in_size): keep it from wrapping */ \
         __CPROVER_requires(stream->avail_in <= 0x7fffffffu)                                        \
         __CPROVER_requires(__CPROVER_is_fresh(stream->next_in, stream->avail_in))                  \
-        __CPROVER_requires(WF_DEFLATE_BUF && WF_DEFLATE_HIST && w_passes == 0 && w_copies == 0)    \
+        __CPROVER_requires(WF_DEFLATE_BUF && WF_DEFLATE_HIST && w_passes == 0 && w_copies == 0 && w_last_kind == 0) \
         /* API rule: no input is supplied once the stream has reached its trailer / end state */   \
         __CPROVER_requires(DM_ENDED(DM_ST.state) ==> (stream->avail_in == 0 && DM_BUFFERED == 0))   \
-        __CPROVER_assigns(__CPROVER_object_whole(stream), w_stream, w_in0, w_avail0, w_total0, w_copies, w_passes, g_hist) \
+        __CPROVER_assigns(__CPROVER_object_whole(stream), w_stream, w_in0, w_avail0, w_total0, w_copies, w_passes, w_last_kind, g_hist) \
         /* one ensures clause per conjunct (separate obligations; the first one is cheap and is part of every \
          * obligation group of reg_igzip_driver_mem.py) */                                         \
         __CPROVER_ensures(__CPROVER_return_value == COMP_OK || __CPROVER_return_value == INVALID_FLUSH || \
@@ -175,23 +178,30 @@ extern uint32_t g_hist;
         __CPROVER_assigns(in_size_initial, out_size_initial, buf_start_in, internal, copy_start_offset, \
                           copy_down_src, copy_down_size, buf_hist_start, size, next_in, avail_in,  \
                           buffered_size, next_in_pre, processed, hist_size, in_size, out_size,     \
-                          __CPROVER_object_whole(stream), w_copies, w_passes, g_hist)              \
+                          __CPROVER_object_whole(stream), w_copies, w_passes, w_last_kind, g_hist)              \
         __CPROVER_loop_invariant(DM_EXT_VIEW && start_in == w_in0 && total_start == w_total0)      \
         __CPROVER_loop_invariant(stream->flush == flush_type && stream->end_of_stream == end_of_stream && flush_type < 3) \
         __CPROVER_loop_invariant(WF_DEFLATE_BUF && WF_DEFLATE_HIST && buffered_size == DM_BUFFERED) \
         __CPROVER_loop_invariant(in_size == stream->avail_in + buffered_size && out_size == stream->total_out) \
+        /* the loop only continues after a pass on the internal buffer */                          \
+        __CPROVER_loop_invariant((w_last_kind == 0 && w_passes == 0) || w_last_kind == 1)            \
         /* buf_hist_start is non-zero only before the first pass of a call that started without history (hist_size 0: \
          * either nothing is buffered and the pass runs on the chunk, or the shift-down moves everything to the front) */ \
         __CPROVER_loop_invariant(0 <= buf_hist_start && (uint32_t) buf_hist_start <= DM_ST.b_bytes_processed && \
-                                 (buf_hist_start == 0 || (w_passes == 0 && hist_size == 0 && DM_ST.has_hist == IGZIP_NO_HIST))) \
+                                 (buf_hist_start == 0 || (w_last_kind == 0 && hist_size == 0 && DM_ST.has_hist == IGZIP_NO_HIST))) \
         /* hist_size: bounded, and large enough for what the next pass may look back at */          \
-        __CPROVER_loop_invariant(hist_size <= DM_BUF_SZ && (DM_ST.has_hist == IGZIP_NO_HIST ==> hist_size <= buffered_size)) \
+        __CPROVER_loop_invariant(hist_size <= DM_BUF_SZ && (w_last_kind == 0 ==> DM_C == 0)) \
         __CPROVER_loop_invariant((DM_ST.has_hist != IGZIP_NO_HIST && stream->avail_in + buffered_size > 0) ==> \
                                  (g_hist <= hist_size && g_hist <= DM_ST.b_bytes_processed))       \
         __CPROVER_loop_invariant(DM_T0(DM_ST.state) ==> (uint32_t) (stream->total_in - buffered_size - DM_ST.block_next) <= hist_size) \
         /* if the buffer still holds history that hist_size does not cover, the call started drained: no input at all */ \
         __CPROVER_loop_invariant((DM_ST.has_hist != IGZIP_NO_HIST && hist_size < DM_MIN32K(DM_ST.b_bytes_processed - (uint32_t) buf_hist_start)) ==> \
-                                 (w_passes == 0 && w_avail0 == 0 && buffered_size == 0 && !DM_T0(DM_ST.state))) \
+                                 (w_last_kind == 0 && w_avail0 == 0 && buffered_size == 0 && !DM_T0(DM_ST.state))) \
+        /* without history: hist_size is 0, buf_hist_start marks the whole processed part as "not history", and once an \
+         * internal pass has run the shift-down has moved everything to the front */              \
+        __CPROVER_loop_invariant(DM_ST.has_hist == IGZIP_NO_HIST ==>                               \
+                                 (hist_size == 0 && (uint32_t) buf_hist_start == DM_ST.b_bytes_processed && \
+                                  (w_last_kind == 1 ==> DM_ST.b_bytes_processed == 0)))            \
         __CPROVER_decreases((uint64_t) stream->avail_in + buffered_size + stream->avail_out)
 #define H_isal_deflate_1 VCANARY();
 
